@@ -8,6 +8,10 @@ import (
 func fingerprint(labels map[string]string) uint64 {
 	descr := [3]uint64{0, 0, 1}
 	for k, v := range labels {
+		if v == "" {
+			// a label with the empty value is no label
+			continue
+		}
 		// the separator keeps {x="y1"} and {xy="1"} apart
 		a := k + "\x00" + v
 		descr[0] += city.CH64([]byte(a))
